@@ -362,6 +362,10 @@ var concScens = []concScen{
 	{"noop-copy-and-writer", [][2]string{{"G1", "a"}, {"G10", "b"}}, 1, "closed:G1:a"},
 	{"noop-copy-and-writer-no-closer", [][2]string{{"G1", "a"}, {"G3", "b"}}, 0, "closed:G1:a"},
 	{"two-writers-after-close", [][2]string{{"G10", "b"}, {"G4", "c"}}, 1, "closed:G1:a"},
+	// a copy whose source tag does not exist fails by itself; its failure must not end the protection
+	// of the other copy
+	{"failing-copy-and-writer", [][2]string{{"MISSING", "a"}, {"G10", "b"}}, 1, ""},
+	{"failing-copy-and-writer-after-close", [][2]string{{"G3", "b"}, {"MISSING", "c"}}, 0, "closed:G1:a"},
 }
 
 func runConc(t *testing.T, c *explore.Ctx, sc concScen, scratch string, trace bool) explore.Result {
@@ -421,7 +425,11 @@ func runConc(t *testing.T, c *explore.Ctx, sc concScen, scratch string, trace bo
 				active++
 				err := w.rc.ImageCopy(ctx, w.src(cp[0]), w.base.SetTag(cp[1]))
 				active--
-				if err != nil {
+				if cp[0] == "MISSING" {
+					if err == nil {
+						errs = append(errs, n+": copy of a source tag that does not exist reported success")
+					}
+				} else if err != nil {
 					errs = append(errs, n+": "+err.Error())
 				}
 				// as regctl does: close the target after the copy
@@ -441,7 +449,7 @@ func runConc(t *testing.T, c *explore.Ctx, sc concScen, scratch string, trace bo
 		sched = nil
 		w.net.OnArrive = nil
 		if out.Deadlock {
-			res = explore.Result{Outcome: "deadlock", VKey: "deadlock", Violation: out.DeadlockAt}
+			res = explore.Result{Outcome: "deadlock", VKey: "observed:deadlock", Violation: out.DeadlockAt}
 			return
 		}
 		if out.Panic != nil {
@@ -449,16 +457,19 @@ func runConc(t *testing.T, c *explore.Ctx, sc concScen, scratch string, trace bo
 			return
 		}
 		res.Outcome = fmt.Sprintf("files=%d errs=%d", len(files(w.dir)), len(errs))
-		c.Logf("%s %v", res.Outcome, errs)
+		c.Logf("%s %s", res.Outcome, strings.ReplaceAll(fmt.Sprint(errs), w.dir, "$DIR"))
 		if len(viol) > 0 {
 			res.VKey, res.Violation = "gc-under-copy", strings.Join(viol, "; ")
 			return
 		}
 		if len(errs) > 0 {
-			res.VKey, res.Violation = "copy-or-close-failed", strings.Join(errs, "; ")
+			res.VKey, res.Violation = "observed:copy-or-close-failed", strings.Join(errs, "; ")
 			return
 		}
 		for _, cp := range sc.Copies {
+			if cp[0] == "MISSING" {
+				continue
+			}
 			_, tg, _, _, err := audit.ReadLayout(w.dir)
 			if err != nil {
 				res.VKey, res.Violation = "layout-invalid", err.Error()
